@@ -248,6 +248,9 @@ class Report:
         }
         self.assumptions = []
         self._distinct = set()
+        # replays of earlier runs of this property would be mistaken for this run's
+        import shutil as _sh
+        _sh.rmtree(VERIF / "replays" / prop_id, ignore_errors=True)
         self.proof_ok = True
         self.proof_details = []
 
